@@ -15,7 +15,8 @@ REGISTRY = collections.OrderedDict()
 
 class LoopSpec:
     def __init__(self, header=None, vars=None, invariants=None, havoc_fields=(), ghosts=None,
-                 ghost_update=None, ghost_init=None, exit_checks=False, assume_each=None, light_inv=None):
+                 ghost_update=None, ghost_init=None, exit_checks=False, assume_each=None, light_inv=None,
+                 assume_seq=None):
         self.header = header
         self.vars = vars or {}
         self.invariants = invariants or []
@@ -25,6 +26,7 @@ class LoopSpec:
         self.ghost_init = ghost_init
         self.exit_checks = exit_checks
         self.light_invariants = light_inv or []   # cheap invariants also used for path pruning
+        self.assume_seq = assume_seq       # trusted fact about the iterated sequence as a whole (e.g. A-dictkeys)
         self.assume_each = assume_each     # trusted invariant of every element (input well-formedness)
 
 
@@ -332,6 +334,18 @@ class ClauseEnv:
 # --------------------------------------------------------------------------
 
 
+class CallRecord(tuple):
+    """(text, arg views, kwarg views, raw) of a call made in the function under verification; .result is
+    filled in when the call returns normally"""
+
+    def __new__(cls, *items):
+        self = tuple.__new__(cls, items)
+        return self
+
+    result = None
+    result_raw = None
+
+
 class VEngine(Engine):
     def __init__(self, repo, registry, schema, lib, **kw):
         Engine.__init__(self, repo, registry, schema, lib, **kw)
@@ -386,8 +400,10 @@ class VEngine(Engine):
         if con is None or fr is not it.entry_frame and not getattr(fr, 'site_scope', False):
             return
         text = ast.unparse(node.func)
-        it.ctx.call_log.append((text, [view(it, a, it.ctx.heap) for a in args],
-                                {k: view(it, a, it.ctx.heap) for k, a in kwargs.items()}, (args, kwargs, node)))
+        rec = CallRecord(text, [view(it, a, it.ctx.heap) for a in args],
+                         {k: view(it, a, it.ctx.heap) for k, a in kwargs.items()}, (args, kwargs, node))
+        it.ctx.call_log.append(rec)
+        it.last_call_record = rec
         if not con.sites:
             return
         for sp in con.sites:
